@@ -950,7 +950,10 @@ def next_event(rng, a: AbsConn, now):
         return (sr, ("send", now, ("A", [(98, "0"), (108, str(a.hb))])), "send:Logon")
     if a.state in (6, 7) and r < 0.75:
         seq = ni if rng.random() < 0.7 else ni + rng.choice([1, 3])
-        return rx("Logon", "A", [(98, "0"), (108, str(a.hb))], seq)
+        body = [(98, "0"), (108, str(a.hb))]
+        if rng.random() < 0.08:
+            body = rng.choice([[(108, str(a.hb))], [(98, "0")], []])
+        return rx("Logon", "A", body, seq)
     # established (or hostile traffic before logon)
     k = rng.random()
     if r < 0.30:
